@@ -351,9 +351,43 @@ class RandGen:
 
 
 def attach_actions(rng: random.Random, g: Grammar, mode: str):
-    """mode: none | void | bool | throw.  Attach to ~half of the controlled nodes."""
+    """mode: none | void | bool | throw | switch.  Attach to ~half of the controlled nodes.
+    switch: bool-style actions plus disable_action / enable_action / change_action< family 1 > bases, and a second action family."""
     g.acts.clear()
+    g.fams.clear()
     if mode == 'none':
+        return
+    if mode == 'switch':
+        def pick():
+            kind = rng.choice(['apply', 'apply0'])
+            if rng.random() < 0.4:
+                return ActSpec(kind, True, rng.choice([2, 3, 3, 5]))
+            return ActSpec(kind)
+        fam1 = {}
+        for nid, nd in g.nodes.items():
+            if not nd.ctl:
+                continue
+            q = rng.random()
+            a = pick() if rng.random() < 0.55 else ActSpec()
+            if q < 0.12:
+                a.wrap = 'da'
+            elif q < 0.22:
+                a.wrap = 'ea'
+            elif q < 0.34:
+                a.wrap = 'ca:1'
+            if a.kind != 'none' or a.wrap != 'none':
+                g.acts[nid] = a
+            b = pick() if rng.random() < 0.55 else ActSpec()
+            q = rng.random()
+            if q < 0.1:
+                b.wrap = 'ca:0'
+            elif q < 0.18:
+                b.wrap = 'da'
+            elif q < 0.26:
+                b.wrap = 'ea'
+            if b.kind != 'none' or b.wrap != 'none':
+                fam1[nid] = b
+        g.fams[1] = fam1
         return
     for nid, nd in g.nodes.items():
         if not nd.ctl or rng.random() < 0.45:
